@@ -553,6 +553,13 @@ func (p c07) RunBatch(t *core.T, b core.Batch) {
 			text := strings.Join(st[lo:hi], "\n")
 			t.Case("corpus", []byte(text), func(c *core.C) { p.corpusCase(c, text) })
 		}
+		// machine-readable copyright files: every fourth in the quick tier
+		docs := corpusDep5()
+		step := tierN(t.Tier, 4, 1)
+		for i := b.Arg * step; i < len(docs); i += 4 * step {
+			text := docs[i]
+			t.Case("corpus", []byte(text), func(c *core.C) { p.corpusCase(c, text); c.Cover("corpus:dep5-copyright-files") })
+		}
 	case "pinned":
 		for _, s := range c07Pinned {
 			s := s
